@@ -274,6 +274,25 @@ def integer(n: int, ctx: int, style_i: int) -> str:
     return 'ok'
 
 
+def int_digit_limit(n: int, neg: bool) -> str:
+    """ints around the interpreter's limit for int <-> str conversion (4300 digits): digit count = solver variable"""
+    for i in range(4296, 4306):
+        if n == i:
+            v = -(10 ** (i - 1)) if neg else 10 ** (i - 1)
+            try:
+                back = yaml.safe_load(yaml.safe_dump(v))
+            except yaml.YAMLError:
+                return fail(P, 'REJECTED', n=v)
+            except Exception as e:
+                not_a_finding(e)
+                return fail(P, 'roundtrip ' + exc_sig(e), n=v)
+            reach()
+            if type(back) is not int or back != v:
+                return fail(P, 'VALUE int read back differently', n=v)
+            return 'ok'
+    return 'ok'
+
+
 CONSTS = [None, True, False, 0.0, -0.0, 1.5, 1e17, 1e-7, float('inf'), float('-inf'), float('nan'), 123456789.123456789,
           datetime.date(2001, 12, 14), datetime.datetime(2001, 12, 14, 21, 59, 43, 100000),
           datetime.datetime(2001, 12, 14, 21, 59, 43, tzinfo=datetime.timezone.utc),
@@ -479,6 +498,8 @@ def jobs(tier):
                       bounds='datetime with every microsecond value (six digit variables), %s: isoformat text -> resolve -> construct, float arithmetic rounded to binary64 (M12)' % ['naive', 'UTC', '-05:30'][t]))
     js.append(Job('dt-micro-dump', dt_micro_dump, [lambda us, tz: 0 <= us <= 999999 and 0 <= tz <= 2], budget=40 if q else 600, exhaust=False,
                   bounds='represent_datetime on microsecond values (formatting an int enumerates: bug-hunting only)'))
+    js.append(Job('int-digit-limit', int_digit_limit, [lambda n, neg: 4296 <= n <= 4305], budget=100,
+                  bounds='ints of 4296..4305 decimal digits (digit count = solver variable), both signs: safe_dump -> safe_load'))
     js.append(Job('integer', integer, [lambda n, ctx, style_i: 0 <= n < 10 ** 6 and 0 <= ctx <= 2 and 0 <= style_i <= 4], budget=60 if q else 1500,
                   exhaust=False, bounds='ints 0 <= n < 10^6, 3 contexts, 5 styles'))
     js.append(Job('consts', consts, [lambda k, style_i, flow_i, canonical: 0 <= k < len(CONSTS) and 0 <= style_i <= 4 and 0 <= flow_i <= 2],
